@@ -19,6 +19,7 @@ INV = {
     'C14': ['Inv_C14_SameAsInline'],
     'C15': ['Inv_C15_SameAsLocal', 'Inv_C15_PhaseObjectFaithful', 'Inv_C15_PhaseObjectLifetime', 'Inv_C15_PausePropagation'],
     'C12': ['Inv_C12_InformerIffOwned', 'Inv_C12_HandlersAttached', 'Inv_C12_ReadUnwatchedFails', 'Inv_C12_MatchesReferenceModel'],
+    'C20': ['Inv_C20_OnePullPerImage', 'Inv_C20_ExactlyOneResponse', 'Inv_C20_NoPhantomPull', 'Inv_C20_Private', 'Inv_C20_NoLostWakeup'],
     'C19': ['Inv_C19_NoPanic'],
 }
 
@@ -95,13 +96,15 @@ def g_dep_archive(e):
     return e['actor'] in ('od', 'cod') and ((e['ev'] == 'Update' and e['args']['body']['cr']['lifecycle'] == 'Archived') or e['ev'] == 'Delete')
 
 
-GUARDS = {'C12': lambda e: e['ev'] in ('C12Op', 'C12Quiescent'),
+GUARDS = {'C20': lambda e: e['ev'] in ('C20Release', 'C20Stress') and (e['ev'] == 'C20Stress' or len(e['args']['returned']) > 0),
+          'C12': lambda e: e['ev'] in ('C12Op', 'C12Quiescent'),
           'C15': lambda e: e['ev'] in ('Create', 'Delete', 'MergePatch') and e['key'].startswith('ObjectSetPhase/') and e['actor'] == 'os' or (e['ev'] == 'Quiesced' and e['args'].get('diff') == 'c15'),
           'C14': lambda e: (e['ev'] == 'Quiesced' and e['args'].get('diff') == 'c14') or (e['ev'] == 'Get' and e['key'].startswith('ObjectSlice/')),
           'C10': lambda e: e['ev'] == 'Quiesced' and e['args'].get('hasRef') and e['args'].get('fired', 0) > 0, 'C07': g_dep_create, 'C08': g_dep_archive, 'C01': g_c01, 'C02': g_c02, 'C03': g_probefail, 'C04': g_teardown_write, 'C05': g_teardown_write, 'C06': g_status,
           'C09': g_paused, 'C11': g_preflight}
 
 RULES = {
+    'C20': 'one case = one script of request arrivals / pull completions (3 callers x 2 images, success or failure) executed on the real RequestManager, or one free-running stress run; non-trivial if a pull completed with waiting callers; distinct by event sequence',
     'C12': 'one case = one operation sequence (Watch/Free/Get/List/OwnersForGKV with scripted informer start-up failures) executed on the real dynamiccache.Cache, or one concurrent stress run; distinct by the sequence of operations and results',
     'C15': 'non-trivial: the ObjectSet controller created/patched/deleted an ObjectSetPhase object, or a delegated variant of the staged scenario was compared stage by stage with the in-process run; distinct by event sequence',
     'C14': 'non-trivial: an ObjectSlice was loaded, or a sliced variant of the staged scenario was compared stage by stage with the inline run; distinct by event sequence',
@@ -279,6 +282,17 @@ CHECKS = {
                          driver=['c12-seq', '-mode', 'random', '-n', '400' if tier == 'quick' else '20000', '-steps', '14', '-seed', str(seed)]),
                     dict(name='c12-stress', module='TraceDynCache', shards=4 if tier == 'quick' else 14,
                          driver=['c12-stress', '-n', '40' if tier == 'quick' else '2000', '-steps', '60', '-seed', str(seed)])]),
+    'C20': dict(level='model_checking', invariants=INV['C20'], module='TraceReqMgr',
+                assumptions=['the registry pull is a gated test function installed through a build-tag guarded accessor; RequestManager, its lock, channels and deep copies are the real code',
+                             'interleavings inside the mutex-protected sections are reached only by chance (stress driver)'],
+                mc=lambda tier: [dict(name='reqmgr', kind='plain', module='MC_ReqMgr', cfg='MC_ReqMgr.cfg')],
+                jobs=lambda tier, seed: [
+                    dict(name='c20-enum', module='TraceReqMgr', shards=8 if tier == 'quick' else 14,
+                         driver=['c20-script', '-mode', 'enum', '-steps', '4' if tier == 'quick' else '5']),
+                    dict(name='c20-random', module='TraceReqMgr', shards=4 if tier == 'quick' else 14,
+                         driver=['c20-script', '-mode', 'random', '-n', '200' if tier == 'quick' else '5000', '-steps', '16', '-seed', str(seed)]),
+                    dict(name='c20-stress', module='TraceReqMgr', shards=4 if tier == 'quick' else 14,
+                         driver=['c20-stress', '-n', '16' if tier == 'quick' else '400', '-steps', '40', '-seed', str(seed)])]),
     'C14': dict(level='model_checking', assumptions=ASSUME,
                 invariants=INV['C14'] + INV['C03'] + INV['C04'] + INV['C05'] + INV['C06'] + ['Inv_C09_NoWritesWhilePaused'],
                 jobs=lambda tier, seed: [
